@@ -108,6 +108,54 @@ theorem serveChecked_outcome (fs : Str → Kind) (f ix : Str) :
     · simp only [hix, if_false]
       cases attempt fs (join f ix) <;> simp
 
+/-! what `staticdir` hands to the OS since the F32 repair: `staticTarget filename` -/
+
+theorem normpath_ne_nil (p : Str) : normpath p ≠ [] := by
+  unfold normpath
+  split
+  · simp [dot]
+  · dsimp only
+    split
+    · simp [dot]
+    · assumption
+
+theorem isAbs_snoc (a : Str) (c : Char) (ha : a ≠ []) : isAbs (a ++ [c]) = isAbs a := by
+  cases a with
+  | nil => exact absurd rfl ha
+  | cons x xs => rfl
+
+theorem isAbs_staticTarget (f : Str) : isAbs (staticTarget f) = isAbs f := by
+  unfold staticTarget
+  split
+  · rw [isAbs_snoc _ _ (normpath_ne_nil f), normpath_isAbs]
+  · exact normpath_isAbs f
+
+/-- A trailing separator does not change the components of the normal form. -/
+theorem components_normpath_snoc_slash (p : Str) (hp : isAbs p = true) :
+    components (normpath (p ++ ['/'])) = components (normpath p) := by
+  have hp' : isAbs (p ++ ['/']) = true := isAbs_append p _ hp
+  rw [normpath_abs_components _ hp', normpath_abs_components p hp]
+  have : splitSlash (p ++ ['/']) = splitSlash p ++ [[]] := by
+    have := splitSlash_append_sep p []
+    simpa [splitSlash] using this
+  rw [this]
+  simp [normStack, List.foldl_append, normStep]
+
+theorem under_normpath (root p : Str) (hu : Under root p) : Under root (normpath p) := by
+  unfold Under at hu ⊢
+  rw [normpath_idem]; exact hu
+
+/-- The name handed to the OS is lexically where the tested name is. -/
+theorem under_staticTarget (root f : Str) (hf : isAbs f = true) (hu : Under root f) :
+    Under root (staticTarget f) := by
+  unfold staticTarget
+  split
+  · have habs : isAbs (normpath f) = true := normpath_abs_isAbs f hf
+    refine under_of_abs root _ (isAbs_append _ _ habs) ?_
+    rw [components_normpath_snoc_slash _ habs, normpath_idem]
+    exact hu.2.1
+  · exact under_normpath root f hu
+
 /-- **C11, static part.**  Every path `staticdir` hands to `stat`/`open` — the joined file
     name and the index fallback below it — is lexically at or below the configured directory,
     for every dir, root, section, request path, unquote function and file-system answer. -/
@@ -133,12 +181,16 @@ theorem C11_static_contained (unq : Str → Str) (fs : Str → Kind) (i : Static
         · simp only [hchk] at ha
           have hchk' : containedCheck (normpath dir)
               (normpath (join dir (staticBranch unq i))) = true := by simpa using hchk
-          obtain ⟨hf, hp⟩ := serveChecked_paths fs _ _ a ha
-          have hfile : Under dir (join dir (staticBranch unq i)) :=
+          obtain ⟨ht, hp⟩ := serveChecked_paths fs _ _ a ha
+          have hf : isAbs (join dir (staticBranch unq i)) = true := by
+            rw [← isAbs_staticTarget]; exact ht
+          have hraw : Under dir (join dir (staticBranch unq i)) :=
             under_of_abs dir _ hf (containedCheck_components _ _ hchk')
+          have hfile : Under dir (staticTarget (join dir (staticBranch unq i))) :=
+            under_staticTarget dir _ hf hraw
           rcases hp with hp | hp
           · rw [hp]; exact hfile
-          · rw [hp]; exact under_join_index dir _ _ hf hfile hix
+          · rw [hp]; exact under_join_index dir _ _ ht hfile hix
 
 /-- **C11, refusals.**  A request `staticdir` refuses (403), cannot serve for lack of an
     absolute directory (ValueError) or passes on (method / match) touches nothing at all. -/
@@ -161,7 +213,7 @@ theorem C11_refused_untouched (unq : Str → Str) (fs : Str → Kind) (i : Stati
         · simp [hchk]
         · exfalso
           simp only [hchk] at h
-          have := serveChecked_outcome fs (join dir (staticBranch unq i)) i.index
+          have := serveChecked_outcome fs (staticTarget (join dir (staticBranch unq i))) i.index
           rcases h with h | h | h
           · exact this.1 h
           · exact this.2 h
@@ -191,8 +243,8 @@ example :
     let i : StaticIn := ⟨strGET, true, "/static".toList, "/t/root".toList, [], "index.html".toList,
       "/static/sub/%2e%2e/f.txt".toList⟩
     staticdir unquote (fun _ => .file) i =
-      ⟨.served "/t/root/sub/../f.txt".toList,
-       [⟨.stat, "/t/root/sub/../f.txt".toList⟩, ⟨.openR, "/t/root/sub/../f.txt".toList⟩]⟩ := by
+      ⟨.served "/t/root/f.txt".toList,
+       [⟨.stat, "/t/root/f.txt".toList⟩, ⟨.openR, "/t/root/f.txt".toList⟩]⟩ := by
   decide
 
 example : IndexPlain "index.html".toList := ⟨by decide, by decide⟩
@@ -231,12 +283,12 @@ theorem sessionRoot_eq (cwd storage : Str) (hcwd : isAbs cwd = true) :
     components, and strictly so unless the storage path is the file-system root. -/
 theorem sessionCheck_components (cwd X id : Str) (hX : isAbs X = true)
     (h : sessionCheck cwd (normpath X) id = true) :
-    components (normpath X) <+: components (normpath (sessionFile (normpath X) id)) ∧
+    components (normpath X) <+: components (normpath (sessionFileRaw (normpath X) id)) ∧
       (components (normpath X) = [] ∨
-        components (normpath (sessionFile (normpath X) id)) ≠ components (normpath X)) := by
+        components (normpath (sessionFileRaw (normpath X) id)) ≠ components (normpath X)) := by
   have hsp : isAbs (normpath X) = true := normpath_abs_isAbs X hX
-  have hf : isAbs (sessionFile (normpath X) id) = true := isAbs_join _ _ hsp
-  simp only [sessionCheck, abspath, hf, if_true, startsWith] at h
+  have hf : isAbs (sessionFileRaw (normpath X) id) = true := isAbs_join _ _ hsp
+  simp only [sessionCheck, sessionFile, abspath, hf, if_true, startsWith] at h
   obtain ⟨t, ht⟩ := List.isPrefixOf_iff_prefix.1 h
   by_cases he : endsSlash (normpath X) = true
   · have := normpath_abs_endsSlash X hX he
@@ -251,7 +303,7 @@ theorem sessionCheck_components (cwd X id : Str) (hX : isAbs X = true)
     by_cases hct : components t = []
     · left
       have hall := components_eq_nil t hct
-      have hes : endsSlash (normpath (sessionFile (normpath X) id)) = true := by
+      have hes : endsSlash (normpath (sessionFileRaw (normpath X) id)) = true := by
         rw [← ht]; exact endsSlash_append_slashes _ _ hall
       have hnil := normpath_abs_endsSlash _ hf hes
       rw [← ht, components_append_sep, hct, List.append_nil] at hnil
@@ -321,15 +373,23 @@ theorem C11_session_contained (cwd storage id : Str) (hcwd : isAbs cwd = true) (
   obtain ⟨X, hX, hsp⟩ := sessionRoot_eq cwd storage hcwd
   rw [hsp] at h ⊢
   have habs : isAbs (normpath X) = true := normpath_abs_isAbs X hX
-  have hf : isAbs (sessionFile (normpath X) id) = true := isAbs_join _ _ habs
+  have hraw : isAbs (sessionFileRaw (normpath X) id) = true := isAbs_join _ _ habs
+  -- the name handed to the OS is the normal form of the joined name
+  have hF : sessionFile cwd (normpath X) id = normpath (sessionFileRaw (normpath X) id) := by
+    simp [sessionFile, abspath, hraw]
+  have hf : isAbs (sessionFile cwd (normpath X) id) = true := by
+    rw [hF]; exact normpath_abs_isAbs _ hraw
   unfold sessOp getFilePath at h
   by_cases hchk : sessionCheck cwd (normpath X) id = true
   · obtain ⟨hpre, hstrict⟩ := sessionCheck_components cwd X id hX hchk
     have hidem : normpath (normpath X) = normpath X := normpath_idem X
-    have hfile : Under (normpath X) (sessionFile (normpath X) id) :=
-      under_of_abs _ _ hf (by rw [hidem]; exact hpre)
-    have hlock : Under (normpath X) (sessionFile (normpath X) id ++ lockSuffix) :=
-      under_of_abs _ _ (isAbs_append _ _ hf) (by rw [hidem]; exact lock_prefix _ _ hf hpre hstrict)
+    have hFn : normpath (sessionFile cwd (normpath X) id) = normpath (sessionFileRaw (normpath X) id) := by
+      rw [hF, normpath_idem]
+    have hfile : Under (normpath X) (sessionFile cwd (normpath X) id) :=
+      under_of_abs _ _ hf (by rw [hidem, hFn]; exact hpre)
+    have hlock : Under (normpath X) (sessionFile cwd (normpath X) id ++ lockSuffix) :=
+      under_of_abs _ _ (isAbs_append _ _ hf)
+        (by rw [hidem]; exact lock_prefix _ _ hf (by rw [hFn]; exact hpre) (by rw [hFn]; exact hstrict))
     simp only [hchk, if_true, Option.some.injEq] at h
     intro a ha
     rw [← h] at ha
@@ -362,7 +422,7 @@ theorem strPrefix_session_counterexample :
     sessionCheckStrPrefix "/".toList "/t/sess".toList "/../../sess-evil/victim".toList = true ∧
       sessionCheck "/".toList "/t/sess".toList "/../../sess-evil/victim".toList = false ∧
       ¬ (components "/t/sess".toList <+:
-          components (normpath (sessionFile "/t/sess".toList "/../../sess-evil/victim".toList))) := by
+          components (normpath (sessionFileRaw "/t/sess".toList "/../../sess-evil/victim".toList))) := by
   decide
 
 /-! ### clean_up and the per-request flow -/
